@@ -33,11 +33,15 @@ def table(tier):
         if meta:
             cfg["meta"] = meta
         rows.append(("table", cfg))
-    for g in RESERVED + ["MustGetX", "GetXInContext", "MustGetXInContext", "Must", "InContext", "getX", "Get_X", "X"]:
+    for g in RESERVED + ["MustGetX", "GetXInContext", "MustGetXInContext", "Must", "InContext", "getX", "Get_X", "X",
+                         "Mustang", "Mustx", "MustgetX", "Must_x", "Must1", "MustX", "mustGetX", "MUSTGetX", "xInContext", "InContextX", "GetXIncontext", "GetXInContext2", "_InContext"]:
         rows.append(("collision-reserved", {"services": {"a": {"value": "Value", "getter": g}}}))
     rows.append(("collision-equal", {"services": {"a": {"value": "Value", "getter": "GetSame"}, "b": {"value": "Value", "getter": "GetSame"}}}))
     rows.append(("collision-equal-todo", {"services": {"a": {"value": "Value", "getter": "GetSame"}, "b": {"todo": True, "getter": "GetSame"}}}))
     rows.append(("collision-derived", {"services": {"a": {"value": "Value", "getter": "GetX", "must_getter": True}, "b": {"value": "Value", "getter": "GetXY"}}}))
+    rows.append(("collision-derived-lower", {"services": {"a": {"value": "Value", "getter": "getDB", "must_getter": True}, "b": {"value": "Value", "getter": "MustgetDB"}}}))
+    rows.append(("collision-derived-ctx", {"services": {"a": {"value": "Value", "getter": "getDB"}, "b": {"value": "Value", "getter": "getDBInContext"}}}))
+    rows.append(("collision-derived-default", {"meta": {"default_must_getter": True}, "services": {"a": {"value": "Value", "getter": "x"}, "b": {"value": "Value", "getter": "Mustx"}}}))
     rows.append(("collision-derived2", {"meta": {"default_must_getter": True}, "services": {"a": {"value": "Value", "getter": "GetA"}, "b": {"value": "Value", "getter": "GetB"}, "c": {"value": "Value"}}}))
     return rows
 
